@@ -20,7 +20,21 @@ fn isaac_is(ty: &dyn GenType, g: &dyn Gen, ref_core_image: &[u8], mut ref_stream
         return true;
     }
     if ty.info().family == Family::Core {
-        return false; // a bare core's image is its core image
+        // a bare core whose image has another layout: decided on behaviour - a copy restored from the image
+        // must generate the reference stream for two blocks
+        return match ty.de(&img) {
+            Some(Ok(mut copy)) => {
+                let item = if is64 { 8 } else { 4 };
+                let mut buf = vec![0u8; 512 * item];
+                copy.fill_bytes(&mut buf);
+                buf.chunks(item).all(|c| {
+                    let mut w = [0u8; 8];
+                    w[..item].copy_from_slice(c);
+                    u64::from_le_bytes(w) == ref_stream()
+                })
+            }
+            _ => false,
+        };
     }
     match ty.de(&img) {
         Some(Ok(mut copy)) => (0..520).all(|_| {
